@@ -320,6 +320,44 @@ func dTotal(g *G) {
 			return new(apd.Decimal).SetFinite(v, -int32(v%7))
 		}), "ctor")
 	}
+	// NewWithBigInt on negative integers of every storage shape (one word, two words, heap, heap-backed but small again),
+	// the result then used by a rounding operation in every mode
+	for i := 0; i < 60; i++ {
+		var v *big.Int
+		switch i % 4 {
+		case 0:
+			v = big.NewInt(-int64(g.R.between(1, 1<<30)))
+		case 1:
+			v = new(big.Int).Neg(g.R.near2())
+		case 2:
+			v = new(big.Int).Neg(g.R.digits(g.R.between(20, 60)))
+		default:
+			v = big.NewInt(-int64(g.R.between(1, 999999)))
+		}
+		shrunk := i%4 == 3
+		mode := modeNames[i%8]
+		e := g.R.between(-5, 5)
+		g.emit(guarded("NewWithBigInt+Context.Round", fmt.Sprintf("%s|%d|%s|shrunk=%v", v.String(), e, mode, shrunk), false, func() *apd.Decimal {
+			var b apd.BigInt
+			if shrunk { // once wider than the inline array, now small: still heap-backed
+				huge := new(big.Int).Lsh(big.NewInt(1), 200)
+				b.SetMathBigInt(new(big.Int).Sub(v, huge))
+				var h apd.BigInt
+				h.SetMathBigInt(huge)
+				b.Add(&b, &h)
+			} else {
+				b.SetMathBigInt(v)
+			}
+			d := apd.NewWithBigInt(&b, int32(e))
+			c := decCtx(Ctx{P: 3, Emin: -100000, Emax: 100000, R: mode})
+			out := new(apd.Decimal)
+			c.Round(out, d)
+			if d.Coeff.Sign() < 0 {
+				return d // ill-formed: reported by the wf conjunct
+			}
+			return out
+		}), "ctor")
+	}
 	for _, f := range append(floatBoundaries(), math.Float64frombits(0x7ff8000000000001), math.Float64frombits(0xfff0000000000000)) {
 		f := f
 		g.emit(guarded("Decimal.SetFloat64/Scan", fmt.Sprintf("%016x", math.Float64bits(f)), false, func() *apd.Decimal {
